@@ -41,7 +41,7 @@ def _hard_codes(case):
     if k == "cli":
         _, kind, ops, sends, recvs = case
         return T.hard_codes_of_script(kind, sends) + T.hard_codes_of_script(kind, recvs)
-    _, tls, ops = case
+    tls, ops = case[1], case[2]
     kind = "remotertls" if tls else "remoter"
     out = []
     for op in _srv_conns(ops):
@@ -168,7 +168,11 @@ class C10(core.Check):
             r = rng.random()
             if r < 0.55:
                 tls = rng.random() < 0.5
-                yield ("srv", tls, T.gen_server_ops(rng, tls, "fault", tier))
+                v = rng.random()
+                if v < 0.8:
+                    yield ("srv", tls, T.gen_server_ops(rng, tls, "fault", tier))
+                else:
+                    yield ("srv", tls, T.gen_server_ops(rng, tls, "fault", tier), "doer" if v < 0.9 else "ctx")
             elif r < 0.85:
                 kind = rng.choice(["client", "clienttls", "client", "clienttls", "remoter", "remotertls"])
                 ops = []
@@ -223,8 +227,8 @@ class C10(core.Check):
         if k == "clic":
             _, tls, recon, tmo, cops = case
             return ("cli", bool(tls), bool(recon), tmo, [("connect", o[1], tuple(o[2]) if o[2] is not None else None) if o[0] == "connect" else tuple(o) for o in cops])
-        _, tls, ops = case
-        return ("server", bool(tls), T.request_server(ops))
+        tls, ops = case[1], case[2]
+        return ("server", bool(tls), T.request_server(list(ops) + ([("close",)] if len(case) > 3 and case[3] == "ctx" else [])))
 
     def run_impl(self, case):
         k = case[0]
@@ -238,15 +242,16 @@ class C10(core.Check):
             return T.run_conn(_cli(case), with_hards=True)
         if k == "clic":
             return T.run_client(tuple(case[1:]))
-        _, tls, ops = case
-        main = T.run_server((tls, ops))
+        tls, ops = case[1], case[2]
+        via = case[3] if len(case) > 3 else "direct"
+        main = T.run_server((tls, ops, via))
         # reference for the sibling clause: same history with the faulty connections' hard faults turned into would-block
         kind = "remotertls" if tls else "remoter"
         conns = _srv_conns(ops)
         clean = {i for i, op in enumerate(conns) if not (T.hard_codes_of_script(kind, op[2]) + T.hard_codes_of_script(kind, op[3]) + T.hard_codes_of_script(kind, op[4]))}
         ref = None
         if 0 < len(clean) < len(conns):
-            ref = T.strip_hard(T.run_server((tls, _soften(tls, ops, clean))))
+            ref = T.strip_hard(T.run_server((tls, _soften(tls, ops, clean), via)))
         return (main, ref)
 
     def compare_view(self, case, obs):
@@ -260,6 +265,8 @@ class C10(core.Check):
 
     # ---- oracle
     def oracle(self, case, obs):
+        if case[0] in ('realsrv', 'realrst') and len(obs) == 2 and obs[0] == "EXC":
+            return ["escaped:" + obs[1]]
         k = case[0]
         if k == "realsrv":
             raised, marked, sibling_ok = obs
@@ -303,16 +310,19 @@ class C10(core.Check):
                 if hs and set(hs) != {T.EPIPE} and not st[4]:
                     bad.append("fault-not-marked")
             return sorted(set(bad))
-        _, tls, ops = case
+        tls, ops = case[1], case[2]
         kind = "remotertls" if tls else "remoter"
         (st0, steps), ref = obs
-        if any(o[0] in ("close", "reopen") for o in ops):
+        if any(o[0] in ("close", "reopen", "closeix", "closeall") for o in ops):
             return []
         allowed = set(T.conn_fault_codes(kind)) | {c + T.HS_OFFSET for c in T.conn_fault_codes(kind) + HS_EXTRA}
         raised_codes = set()
         for op, (st, snap) in zip(ops, steps):
             raised_codes = {c for e in snap if e[0] != "listen" for c in e[-1]}
             if op[0] == "svc" and st != "ok":   # whatever the sockets did and whatever class escaped
+                bad.append("service-raised")
+                break
+            if op[0] == "rxix" and st == "OSError":   # serviceReceivesIx(ca): a socket error must not escape it either
                 bad.append("service-raised")
                 break
         # every connection whose socket raised a connection-level fault is marked cut off / aborted
@@ -358,6 +368,8 @@ class C10(core.Check):
         return None
 
     def nontrivial(self, case, obs):
+        if case[0] in ('realsrv', 'realrst') and len(obs) == 2 and obs[0] == "EXC":
+            return True
         if case[0] in ("site", "realsrv", "realrst"):
             return True
         if case[0] == "clic":
@@ -369,6 +381,8 @@ class C10(core.Check):
         return sum(1 for e in socks if e[0] != "listen") >= 2 and any(e[0] != "listen" and e[-1] for e in socks)
 
     def features(self, case, obs):
+        if case[0] in ('realsrv', 'realrst') and len(obs) == 2 and obs[0] == "EXC":
+            return ["escaped"]
         f = [case[0]]
         if case[0] == "realsrv":
             return f + ["real:" + ("tls" if case[1] else "plain"), "real:" + case[2]]
@@ -399,8 +413,12 @@ class C10(core.Check):
         return f
 
     def shrink(self, case):
+        if case[0] == "srv" and len(case) > 3:
+            for c in self.shrink(case[:3]):
+                yield c + (case[3],)
+            return
         if case[0] == "srv":
-            _, tls, ops = case
+            tls, ops = case[1], case[2]
             for i in range(len(ops)):
                 yield ("srv", tls, ops[:i] + ops[i + 1:])
             for i, op in enumerate(ops):
